@@ -99,3 +99,12 @@ claim('C08',
       'Reals model; positions on an operand boundary excepted; compound masks bounded to small operands.',
       'symbolic execution of the real Python + SMT (z3 NRA)',
       'DESIGN.md section 5 C08')
+claim('C18',
+      'Bounded symbolic check of as_artist of every pixel class with recording stand-ins for the matplotlib patch classes: '
+      'the documented point set of the recorded patch (Circle / Ellipse / Rectangle-about-its-anchor / Polygon), shifted by '
+      'the plot origin, is compared with the independent region oracle for every probe position, all real parameters, '
+      'angles and origins; point/text/line positions; annulus path = outer outline + inner outline with negated signed '
+      'area; visual-to-keyword translation and caller override; bounding-box rectangle.',
+      'matplotlib rendering itself (Bezier approximation, transforms, contains_point) is outside; replays use real matplotlib.',
+      'symbolic execution of the real Python with recording stubs + SMT (z3 NRA)',
+      'DESIGN.md section 5 C18')
